@@ -2,14 +2,14 @@
 """Prints the markdown table of /verif/seeded/*/meta.json (for DESIGN.md 7.7)."""
 import glob, json, os
 ROOT = os.path.dirname(os.path.dirname(os.path.abspath(__file__)))
+notes = json.load(open(os.path.join(ROOT, "seeded", "NOTES.json")))
 rows = []
 for f in sorted(glob.glob(os.path.join(ROOT, "seeded", "*", "meta.json"))):
     m = json.load(open(f))
     name = os.path.basename(os.path.dirname(f))
     c = m.get("confirmed", {})
-    caught = "; ".join("%s: %s" % (k, v) for k, v in c.get("caught", {}).items())
-    first = m.get("first_result", "")
-    rows.append("| %s | %s | %s | %s | %s |" % (name, m.get("summary", "").replace("|", "/")[:170], m.get("needs", "").replace("|", "/")[:170], first, caught))
-print("| id | change | needs | first run | now |")
+    caught = "; ".join("%s %s" % (k, v.replace("quick ", "").replace(" seeds", "")) for k, v in c.get("caught", {}).items())
+    rows.append("| %s | %s | %s | %s | %s |" % (name, m.get("summary", "").replace("|", "/").replace("\n", " ")[:150], m.get("first_result", ""), caught, notes.get(name, "")))
+print("| id | change (abridged; full text in seeded/<id>/meta.json) | first run | now (quick, seeds 1,2,3) | what was added after a miss |")
 print("|---|---|---|---|---|")
 print("\n".join(rows))
